@@ -37,6 +37,7 @@ func runC20(c *report.Ctx) {
 	checkSanitiserCoverage(c)
 	c.Clause("4 error bodies untouched")
 	checkErrorBodies(c)
+	checkCropKeepsField(c)
 	c.Clause("5 runtime identity string")
 	checkRuntimeRelease(c)
 }
